@@ -6,7 +6,7 @@
     (a) asks whether the model can produce that very log (mode A: acceptance by
         subset construction) -- tag 1 when it cannot, and
     (b) applies the property itself, as small deterministic monitors that do
-        not know the model, to the log -- tags 2..8 (10+k would be a
+        not know the model, to the log -- tags 2..9 (10+k would be a
         known-finding class; none is open for C13). *)
 From Coq Require Import List Bool ZArith NArith Arith Lia.
 Import ListNotations.
@@ -101,35 +101,73 @@ Fixpoint mrun (m : mst) (tr : list event) : option mst :=
 Definition k_stream (tr : list event) : bool :=
   match mrun MOut tr with Some MOut => true | _ => false end.
 
-(** * K3: silence.  The goroutine's letters occur only while the name is
-      managed according to the markers: after an [Add] was called and before
-      [Remove] returned successfully (the retryMonitor goroutine of a
-      successful Add may run before the caller sees Add return). *)
+(** * K3: silence.  The goroutine's letters occur only while some Add of the
+      name is live: [n] counts Add calls issued (by either client goroutine)
+      minus refused Adds and successful Removes; [pend] counts Add calls that
+      have not returned.  A Remove that reports "not added" asserts that the
+      name is unmanaged: from then on only Adds still in flight can justify
+      letters.  With calls of one goroutine only this is "between Add called
+      and Remove returned"; with a second goroutine calling Add while a Remove
+      is in progress the new monitor may run before the first goroutine has
+      logged the return of its Remove. *)
 
-Fixpoint k_silence (man : bool) (tr : list event) : bool :=
+Fixpoint k_silence_n (n pend : nat) (tr : list event) : bool :=
   match tr with
   | [] => true
   | e :: tr' =>
       match e with
-      | EAddCalled => k_silence true tr'
-      | ERemoveReturned true => k_silence false tr'
-      | _ => (is_marker e || man) && k_silence man tr'
+      | EAddCalled | XCalled KAdd => k_silence_n (S n) (S pend) tr'
+      | EAdd true | XReturned KAdd true => k_silence_n n (pred pend) tr'
+      | EAdd false | XReturned KAdd false => k_silence_n (pred n) (pred pend) tr'
+      | ERemoveReturned true | XReturned KRemove true => k_silence_n (pred n) pend tr'
+      | ERemoveReturned false | XReturned KRemove false => k_silence_n pend pend tr'
+      | _ => (is_marker e || negb (Nat.eqb n 0)) && k_silence_n n pend tr'
       end
   end.
 
-(** * K4: refusals.  Add succeeds iff the name is not managed, Remove and
-      Reconnect succeed iff it is. *)
+Definition k_silence (tr : list event) : bool := k_silence_n 0 0 tr.
 
-Fixpoint k_refuse (man : bool) (tr : list event) : bool :=
+(** * K4: refusals.  [m] = successful Adds minus successful Removes so far;
+      [rmp] = a Remove of the first goroutine is in progress on a managed name
+      (it will succeed).  Add succeeds iff the name is not managed, Remove and
+      Reconnect succeed iff it is; a call of the second goroutine, issued while
+      that Remove is in progress, is judged as if it came after it. *)
+
+Fixpoint k_refuse_n (m : nat) (rmp : bool) (tr : list event) : bool :=
+  let meff := if rmp then pred m else m in
   match tr with
   | [] => true
   | e :: tr' =>
       match e with
-      | EAdd ok => Bool.eqb ok (negb man) && k_refuse (man || ok) tr'
-      | ERemoveReturned ok => Bool.eqb ok man && k_refuse false tr'
-      | EReconnectReturned ok => Bool.eqb ok man && k_refuse man tr'
-      | _ => k_refuse man tr'
+      | EAdd ok => Bool.eqb ok (Nat.eqb m 0) && k_refuse_n (if ok then S m else m) rmp tr'
+      | ERemoveCalled => k_refuse_n m (negb (Nat.eqb m 0)) tr'
+      | ERemoveReturned ok => Bool.eqb ok rmp && k_refuse_n (if ok then pred m else m) false tr'
+      | EReconnectReturned ok => Bool.eqb ok (negb (Nat.eqb m 0)) && k_refuse_n m rmp tr'
+      | XReturned KAdd ok =>
+          Bool.eqb ok (Nat.eqb meff 0) && k_refuse_n (if ok then S m else m) rmp tr'
+      | XReturned KRemove ok =>
+          Bool.eqb ok (negb (Nat.eqb meff 0)) && k_refuse_n (if ok then pred m else m) rmp tr'
+      | XReturned KReconnect ok =>
+          Bool.eqb ok (negb (Nat.eqb meff 0)) && k_refuse_n m rmp tr'
+      | _ => k_refuse_n m rmp tr'
       end
+  end.
+
+Definition k_refuse (tr : list event) : bool := k_refuse_n 0 false tr.
+
+(** * K9: a call made by the second goroutine while a Remove of the name is in
+      progress does not return while the harness still holds a callback of the
+      old session open (the Remove cannot have completed).  In particular an
+      Add is not accepted while the previous target of that name is still
+      making callbacks. *)
+
+Fixpoint k_gate (closed : bool) (tr : list event) : bool :=
+  match tr with
+  | [] => true
+  | EGateClosed :: tr' => k_gate true tr'
+  | EGateOpen :: tr' => k_gate false tr'
+  | XReturned _ _ :: tr' => negb closed && k_gate closed tr'
+  | _ :: tr' => k_gate closed tr'
   end.
 
 (** * K5: liveness watchdogs of the harness never fired *)
@@ -191,8 +229,9 @@ Definition mkt (creds : bool) (hops : nat) (timeout : bool) (tr : list event) : 
 Definition k_tags (c : cfg) (tr : list event) : list N :=
   (if k_lang tr then [] else [2%N])
   ++ (if k_stream tr then [] else [3%N])
-  ++ (if k_silence false tr then [] else [4%N])
-  ++ (if k_refuse false tr then [] else [5%N])
+  ++ (if k_silence tr then [] else [4%N])
+  ++ (if k_refuse tr then [] else [5%N])
+  ++ (if k_gate false tr then [] else [9%N])
   ++ (if k_live tr then [] else [6%N])
   ++ (if k_cause (c_timeout c) 0 false tr then [] else [7%N]).
 
